@@ -317,6 +317,10 @@ def find_irrelevant_type(etype: tp.Type, types: List[tp.Type],
 
     if isinstance(etype, tp.TypeParameter):
         if etype.bound is None or etype.bound == factory.get_any_type():
+            # Every type but the top type is unrelated to such a variable.
+            types = [t for t in types if t != factory.get_any_type()]
+            if not types:
+                return None
             return choose_type(types, only_regular=True)
         else:
             etype = etype.bound
@@ -334,7 +338,10 @@ def find_irrelevant_type(etype: tp.Type, types: List[tp.Type],
         for t in relevant_types
         if isinstance(t, tp.ParameterizedType)
     }
-    available_types = [t for t in types if t not in relevant_types]
+    # The top type is a supertype of every type, even when it is not a
+    # declared supertype of `etype`.
+    available_types = [t for t in types if t not in relevant_types
+                       and t != factory.get_any_type()]
     if not available_types:
         return None
     t = utils.random.choice(available_types)
